@@ -72,8 +72,28 @@ def history(srv, rng, res, hist_no):
             if not live:
                 clients.append(Cl(srv, len(clients)))
                 continue
-            act = rng.choice(["sub", "sub", "psub", "psub", "unsub", "punsub", "pub", "pub", "pub", "pub", "disc"])
+            act = rng.choice(["sub", "sub", "psub", "psub", "unsub", "punsub", "pub", "pub", "pub", "pub", "disc", "in-multi"])
             cl = rng.choice(live)
+            if act == "in-multi":
+                # (un)subscribing between MULTI and EXEC: whether the server acts at once or at EXEC, and what it answers, is
+                # not judged - afterwards the subscription table is what the commands say, for THIS connection and nobody else
+                kind = rng.choice([b"SUBSCRIBE", b"PSUBSCRIBE", b"UNSUBSCRIBE", b"PUNSUBSCRIBE"])
+                lst = cl.chans if kind in (b"SUBSCRIBE", b"UNSUBSCRIBE") else cl.pats
+                pool = CHANNELS if kind in (b"SUBSCRIBE", b"UNSUBSCRIBE") else PATTERNS
+                if kind in (b"UNSUBSCRIBE", b"PUNSUBSCRIBE") and not lst:
+                    continue
+                nm = rng.choice(lst) if kind in (b"UNSUBSCRIBE", b"PUNSUBSCRIBE") else rng.choice(pool)
+                log.append("c%d MULTI; %s %s; EXEC" % (cl.ident, kind.decode(), resp.show(nm)))
+                cl.c.send_raw(resp.encode([b"MULTI"]) + resp.encode([kind, nm]) + resp.encode([b"EXEC"]))
+                cl.fenced(None)
+                if kind in (b"SUBSCRIBE", b"PSUBSCRIBE"):
+                    if nm not in lst:
+                        lst.append(nm)
+                elif nm in lst:
+                    lst.remove(nm)
+                res.evaluations += 1
+                res.cell("in-multi", kind.decode().lower())
+                continue
             if act in ("sub", "psub"):
                 pool = CHANNELS if act == "sub" else PATTERNS
                 names = [rng.choice(pool) for _ in range(rng.randrange(1, 4))]
@@ -202,11 +222,87 @@ def history(srv, rng, res, hist_no):
         pub.c.close()
 
 
+def slow_subscriber(srv, res):
+    """A subscriber that is owed more than the socket buffers hold and reads late: the server writes in pieces
+    (partial writes, retries). Every message arrives once, whole, in publish order - for it and for a
+    subscriber that reads promptly."""
+    import socket as _socket
+    raw = _socket.socket()
+    raw.setsockopt(_socket.SOL_SOCKET, _socket.SO_RCVBUF, 32768)
+    raw.connect(("127.0.0.1", srv.port))
+    raw.sendall(resp.encode([b"SUBSCRIBE", b"slow:ch"]))
+    time.sleep(0.05)
+    fast = srv.client(timeout=30)
+    fast.cmd("SUBSCRIBE", "slow:ch")
+    pub = srv.client(timeout=30)
+    nmsg, size = 30, 200 * 1024
+    msgs = [(b"%06d|" % i) * (size // 7) for i in range(nmsg)]
+    counts = []
+    for m in msgs:
+        counts.append(pub.cmd("PUBLISH", "slow:ch", m))
+    res.evaluations += nmsg
+    res.cell("slow-subscriber", "publish-counts")
+    if counts != [2] * nmsg:
+        res.violation("count/slow-subscriber", "PUBLISH to a channel with a slow and a prompt subscriber returned %s, expected 2 every time" % counts[:12])
+    got_fast = []
+    try:
+        for _ in range(nmsg):
+            got_fast.append(fast.recv(timeout=20))
+    except (Closed, Timeout, resp.ProtocolError) as e:
+        got_fast.append(type(e).__name__)
+    # now the slow one reads everything it is owed
+    raw.settimeout(20)
+    buf = bytearray()
+    got_slow = []
+    pos = 0
+    problem = None
+    try:
+        while len(got_slow) < nmsg + 1:
+            try:
+                v, pos2 = resp.parse(buf, pos)
+                got_slow.append(v)
+                pos = pos2
+                continue
+            except resp.Incomplete:
+                pass
+            d = raw.recv(1 << 20)
+            if not d:
+                problem = "connection closed after %d frames" % len(got_slow)
+                break
+            buf += d
+    except resp.ProtocolError as e:
+        problem = "stream broken after %d intact frames: %s" % (len(got_slow), e)
+    except (OSError, _socket.timeout) as e:
+        problem = "no more data after %d frames (%s)" % (len(got_slow), type(e).__name__)
+    raw.close()
+    fast.close()
+    pub.close()
+    want = [[b"message", b"slow:ch", m] for m in msgs]
+    res.evaluations += 2 * nmsg
+    res.cell("slow-subscriber", "delivery")
+    if got_fast != want:
+        i = next((j for j, (a, b) in enumerate(zip(got_fast, want)) if a != b), min(len(got_fast), len(want)))
+        res.violation("slow-subscriber/prompt-reader", "the prompt subscriber's message #%d differs (%d of %d received): %s" % (i, len(got_fast), nmsg, resp.show(got_fast[i:i + 1], 40)))
+    if problem or got_slow[1:] != want:
+        i = next((j for j, (a, b) in enumerate(zip(got_slow[1:], want)) if a != b), min(len(got_slow) - 1, len(want)))
+        res.violation("slow-subscriber/late-reader", "a subscriber with a 32 KB receive buffer that started reading after %d x %d KB had been published: %s; first difference at "
+                      "message #%d: %s" % (nmsg, size // 1024, problem or "all frames parsed", i, resp.show(got_slow[1 + i:2 + i], 40)))
+
+
 def worker(wseed, binary, budget_s):
     rng = util.rng_for(wseed, "C14")
     res = Result()
     srv = server.Server(binary).start()
     try:
+        if wseed % 1000 == 0:
+            try:
+                slow_subscriber(srv, res)
+            except (Closed, Timeout, OSError) as e:
+                if not srv.settle():
+                    res.violation("server-died/slow-subscriber", "server exited %s\n%s" % (srv.exit_status(), srv.stderr_tail()))
+                    srv.restart()
+                else:
+                    res.inconclusive.append("slow-subscriber scenario: %r" % (e,))
         t_end = time.time() + budget_s
         n = 0
         while time.time() < t_end:
